@@ -1,0 +1,32 @@
+/*
+ * Verification hooks (compiled in only with -DPISTACHE_VERIF).
+ *
+ * PISTACHE_VERIF_YIELD(label) marks a point where a cooperative test scheduler
+ * may hand control to another thread. Without the define it expands to nothing.
+ */
+
+#pragma once
+
+#ifdef PISTACHE_VERIF
+
+namespace Pistache::Verif
+{
+    using YieldFn = void (*)(const char* label);
+
+    // Installed by the test process; null means "no scheduler": yield points do nothing.
+    inline YieldFn yieldHook = nullptr;
+
+    inline void yield(const char* label)
+    {
+        if (yieldHook)
+            yieldHook(label);
+    }
+} // namespace Pistache::Verif
+
+#define PISTACHE_VERIF_YIELD(label) ::Pistache::Verif::yield(label)
+
+#else
+
+#define PISTACHE_VERIF_YIELD(label) ((void)0)
+
+#endif
